@@ -837,13 +837,20 @@ def rule_nodekey(ctx):
             continue
         g = v.args[0]
         src = g.generators[0].iter
-        seen = set()
-        while isinstance(src, ast.Name) and src.id in amap and src.id not in seen:
-            seen.add(src.id)
-            src = amap[src.id]
+        # every expression the iterated value may derive from (flow-insensitive over the local assignments)
+        exprs, names, work = [src], set(), [src]
+        while work:
+            e = work.pop()
+            for x in ast.walk(e):
+                if isinstance(x, ast.Name) and isinstance(x.ctx, ast.Load) and x.id not in names:
+                    names.add(x.id)
+                    for a in ast.walk(f.node):
+                        if isinstance(a, ast.Assign) and any(isinstance(t, ast.Name) and t.id == x.id for t in a.targets):
+                            exprs.append(a.value)
+                            work.append(a.value)
         inst = {"node identity": norm(n)[:100], "built from": norm(src)[:80]}
         r.instances.append(inst)
-        lossy = any(isinstance(x, ast.Call) and isinstance(x.func, ast.Attribute) and x.func.attr == "simplify" for x in ast.walk(src))
+        lossy = any(isinstance(x, ast.Call) and isinstance(x.func, ast.Attribute) and x.func.attr == "simplify" for e in exprs for x in ast.walk(e))
         str_elt = isinstance(g.elt, ast.Call) and norm(g.elt.func) in ("str", "repr")
         if lossy and str_elt:
             r.fail(Finding("R-NODEKEY", f"R-NODEKEY|{f.qualname}|{n.targets[0].id}", f"{f.file}:{n.lineno}",
@@ -856,7 +863,91 @@ def rule_nodekey(ctx):
     if not r.instances:
         r.instances.append({"node identity": "no `tuple(str(..) for ..)` key found"})
         r.undecided.append({"what": "node identity keys not in the recognised form"})
+    # the string of a part is its repr: it must be the full repr (no abbreviation) or distinct keys collide
+    for cq, c in sorted(prog.classes.items()):
+        if c.module.name not in ("conditions", "datapath"):
+            continue
+        for mname in ("__repr__", "__str__"):
+            m = c.methods.get(mname)
+            if m is None:
+                continue
+            lossy = None
+            for n in ast.walk(m.node):
+                if isinstance(n, ast.Call) and norm(n.func).split(".")[0] in ("reprlib", "textwrap"):
+                    lossy = n
+                elif isinstance(n, ast.Call) and norm(n.func) in ("shorten", "truncate"):
+                    lossy = n
+                elif isinstance(n, ast.Subscript) and isinstance(n.slice, ast.Slice) and not norm(n.value).startswith(("self.children", "self.parts")):
+                    lossy = n
+                elif isinstance(n, ast.FormattedValue) and n.format_spec is not None and any(isinstance(x, ast.Constant) and isinstance(x.value, str) and "." in x.value for x in ast.walk(n.format_spec)):
+                    lossy = n
+            inst = {"repr feeding node identity": f"{cq}.{mname}", "abbreviates": norm(lossy)[:60] if lossy is not None else None}
+            r.instances.append(inst)
+            if lossy is None:
+                r.ok()
+            else:
+                r.fail(Finding("R-NODEKEY", f"R-NODEKEY|{cq}.{mname}|lossy", f"{m.file}:{lossy.lineno}",
+                               f"`{norm(lossy)[:70]}` in {cq}.{mname} abbreviates the text of a condition / part; the documentation tree identifies a node by `str(part)` of its path parts, "
+                               f"so two long keys that differ only in the abbreviated middle are merged into one node", []))
+    # the root component is put back on every node *before* nesting moves nodes below their parents
+    nest_if = next((i for i, st in enumerate(f.node.body) if isinstance(st, ast.If) and isinstance(st.test, ast.Name) and st.test.id in [p.name for p in f.params] and "nest" in st.test.id), None)
+    restore = [i for i, st in enumerate(f.node.body) for n in ast.walk(st)
+               if isinstance(n, ast.Assign) and isinstance(n.targets[0], ast.Subscript) and isinstance(n.targets[0].slice, ast.Constant) and n.targets[0].slice.value in ("path", "path_str")
+               and any(isinstance(x, ast.Subscript) and isinstance(x.slice, ast.UnaryOp) for x in ast.walk(n.value)) and isinstance(st, (ast.If, ast.For))]
+    inst = {"root component restored at statements": sorted(set(restore)), "nesting at statement": nest_if}
+    r.instances.append(inst)
+    if nest_if is None or not restore:
+        r.undecided.append(inst)
+    elif max(restore) < nest_if:
+        r.ok()
+    else:
+        st = f.node.body[max(restore)]
+        r.fail(Finding("R-NODEKEY", f"R-NODEKEY|{f.qualname}|restore-after-nesting", f"{f.file}:{st.lineno}",
+                       "the last component of `from_path` is put back on the node paths after the nodes were nested: only the top-level node still sits in the list then, "
+                       "so every descendant keeps a path relative to the sub-tree root (flat and nested forms differ, a child's parent is no prefix of it)", []))
     return r
+
+
+def rule_exhaust(ctx):
+    """A table of the tree builder that is subscripted with the container kind of a path part must
+    have an entry for every kind a part class declares (`CONTAINER_TYPE`): an integer key is a
+    map-or-list part, whose kind is neither MAP nor LIST."""
+    prog = ctx.prog
+    r = RuleResult("R-EXHAUST", floor=1)
+    from ..anchors import tree_builder
+    f = tree_builder(prog)
+    kinds = {}
+    for c in prog.classes.values():
+        v = c.attrs.get("CONTAINER_TYPE")
+        if isinstance(v, ast.Attribute) and isinstance(v.value, ast.Name):
+            kinds[norm(v)] = c.qualname
+    tables = {}
+    for n in ast.walk(f.node):
+        if isinstance(n, ast.Assign) and len(n.targets) == 1 and isinstance(n.targets[0], ast.Name) and isinstance(n.value, ast.Dict) and n.value.keys \
+                and all(isinstance(k, ast.Attribute) and norm(k) in kinds or (isinstance(k, ast.Attribute) and norm(k).split(".")[0] == next(iter(kinds)).split(".")[0]) for k in n.value.keys):
+            tables[n.targets[0].id] = n
+    for name, n in tables.items():
+        keys = {norm(k) for k in n.value.keys}
+        uses = [x for x in ast.walk(f.node) if isinstance(x, ast.Subscript) and isinstance(x.value, ast.Name) and x.value.id == name and isinstance(x.ctx, ast.Load)]
+        guarded = all(any(isinstance(p, ast.Try) for p in _par(u)) or any(f"in {name}" in t for t in _facts_txt(prog, f, u)) for u in uses)
+        missing = sorted(set(kinds) - keys)
+        inst = {"table": name, "keys": sorted(keys), "container kinds declared by part classes": kinds, "missing": missing, "lookups": [norm(u) for u in uses]}
+        r.instances.append(inst)
+        if not missing or guarded:
+            r.ok()
+        else:
+            r.fail(Finding("R-EXHAUST", f"R-EXHAUST|{f.qualname}|{name}", f"{f.file}:{n.lineno}",
+                           f"`{name}` has no entry for {missing} (declared by {[kinds[m] for m in missing]}) but is subscripted unguarded with a part's container kind "
+                           f"({[norm(u) for u in uses]}): a rule whose last part is a plain integer key makes the tree builder raise KeyError", []))
+    if not tables:
+        r.instances.append({"table": "none keyed by container kinds"})
+        r.undecided.append({"what": "no table keyed by Container members in the tree builder"})
+    return r
+
+
+def _facts_txt(prog, f, node):
+    from .astutil import facts_at
+    return facts_at(prog, f, node, lambda e: " ".join(ast.unparse(e).split()))
 
 
 def _par(n):
